@@ -467,6 +467,13 @@ def find_witness(prop, v, repo, log):
         r = slice_grid_search(log)
         r['search'] = 'all len<=6 x start/stop in [-8,8]+extremes x step on the real library vs Python slicing'
         return r
+    if 'eval_module' in oid or fn.endswith('::eval_module'):
+        build(log)
+        p = subprocess.run([BIN, 'module-depth'], capture_output=True, text=True, timeout=300)
+        o = p.stdout.strip()
+        return {'witness': None if o.startswith('OK') else {'probe': 'five modules evaluated on ONE evaluator (ok, run-time error, stack overflow, cancellation seen by the end-of-module check, cancellation inside a def); Evaluator::call_stack_count() after each',
+                                                          'real_library': o, 'expected': 'depth=0 after every evaluation'},
+                'search': 'verif_replay module-depth'}
     if prop == 'C07' and 'top_frame' in oid:
         build(log)
         p = subprocess.run([BIN, 'topframe'], capture_output=True, text=True)
